@@ -358,11 +358,369 @@ def random_maps(count, rng, nmax=40, mask=0):
     return cases
 
 
+# ---------------------------------------------------------------------------------------------
+# 3-D (CMap3): independent recomputation of cells, oracle, streams
+# ---------------------------------------------------------------------------------------------
+
+POLS3 = list(gens.OBS3_POLICIES)      # v vl e f fl vol voll c10 c01 c23 c3 c0123
+# generator images of /repo/honeycomb-core/src/cmap/dim3/orbits.rs, as index paths: (a, b) = β_b(β_a(x))
+GEN3 = {
+    "v": [(2, 3), (3, 1), (2, 1), (0, 3), (0, 2)],
+    "vl": [(2, 3), (3, 1), (2, 1)],
+    "e": [(2,), (3,)],
+    "f": [(1,), (0,), (3,)],
+    "fl": [(1,), (3,)],
+    "vol": [(1,), (0,), (2,)],
+    "voll": [(1,), (2,)],
+}
+SYM3 = {"v": "vid", "e": "eid", "f": "fid", "vol": "volid"}      # policy -> id kind
+LIN3 = {"vl": "v", "fl": "f", "voll": "vol"}
+ITER3 = {"iterv": "v", "itere": "e", "iterf": "f", "itervol": "vol"}
+COUNT3 = {"maps": 0, "maps_not_wf_skipped": 0, "maps_glued_faces_open_or_unmirrored": 0, "orbit_checked": 0,
+          "orbit_cell_checked": 0, "vertex_orbit_skipped": 0, "linear_closed": 0, "linear_open_skipped": 0,
+          "ids_checked": 0, "vid_skipped": 0, "fid_open_or_unmirrored_skipped": 0, "id_pairs": 0, "iter_checked": 0,
+          "iter_mechanism_checked": 0, "iter_skipped": 0, "tx_vs_plain": 0, "maps_with_removed_darts": 0,
+          "volumes_with_open_face": 0, "boundary_vertices": 0}
+
+
+def gens3(pol):
+    """index paths of the policy's generators, None if the policy is refused by a 3-map"""
+    if pol in GEN3:
+        return GEN3[pol]
+    if pol.startswith("c") and pol[1:].isdigit() or pol == "c":
+        idx = [int(c) for c in pol[1:]]
+        if any(i > 3 for i in idx):
+            return None
+        return [(i,) for i in idx]
+    return None
+
+
+def apply3(path, b, n, x):
+    for i in path:
+        x = b[i][x] if x < n else 0
+    return x if x < n else 0
+
+
+def forward3(paths, b, n, d):
+    seen, todo = {d}, [d]
+    while todo:
+        x = todo.pop()
+        for p in paths:
+            y = apply3(p, b, n, x)
+            if y != 0 and y not in seen:
+                seen.add(y)
+                todo.append(y)
+    return seen
+
+
+def components3(paths, b, n):
+    """classes of the equivalence generated by the images (= closure under images and inverses), union-find"""
+    parent = list(range(n))
+
+    def find(x):
+        while parent[x] != x:
+            parent[x] = parent[parent[x]]
+            x = parent[x]
+        return x
+
+    for x in range(1, n):
+        for p in paths:
+            y = apply3(p, b, n, x)
+            if y != 0:
+                rx, ry = find(x), find(y)
+                if rx != ry:
+                    parent[rx] = ry
+    comp = {}
+    for x in range(1, n):
+        comp.setdefault(find(x), set()).add(x)
+    return {x: comp[find(x)] for x in range(1, n)}
+
+
+def wf3(b, u, n):
+    """WF 4 + NoImageOfUnused of Model/WF.lean on the rows of a snapshot"""
+    for i in range(4):
+        if b[i][0] != 0 or any(y >= n for y in b[i]):
+            return False
+    for x in range(1, n):
+        if b[1][x] and b[0][b[1][x]] != x or b[0][x] and b[1][b[0][x]] != x:
+            return False
+        for i in (2, 3):
+            y = b[i][x]
+            if y and (y == x or b[i][y] != x):
+                return False
+        if u[x] and any(b[i][x] for i in range(4)):
+            return False
+        if any(b[i][x] and u[b[i][x]] for i in range(4)):
+            return False
+    return True
+
+
+def face_ok3(cell, b):
+    """the face is closed (β1 total on it) and, if 3-glued, glued entirely and mirrored"""
+    b1, b3 = b[1], b[3]
+    if any(b1[x] == 0 for x in cell):
+        return False
+    if all(b3[x] == 0 for x in cell):
+        return True
+    return all(b3[x] != 0 and b1[b3[b1[x]]] == b3[x] for x in cell)
+
+
+def glued_ok3(b, n, fcells):
+    """every 3-glued face of the map is closed and mirrored (the restriction of the vertex clauses)"""
+    return gens.mirror3(b[1], b[3]) and all(face_ok3(fcells[x], b) for x in range(1, n) if b[3][x] != 0)
+
+
+def linear_closed3(pol, cell, b, n):
+    """forward reachability = the cell: every one-directional generator is a permutation of the cell or
+    undefined on all of it (β2 and β3 alone are involutions: their own inverses)"""
+    for p in GEN3[pol]:
+        if p in ((2,), (3,)):
+            continue
+        ims = [apply3(p, b, n, x) for x in cell]
+        if any(ims) and not all(ims):
+            return False
+    return True
+
+
+def oracle_c03_3d(case, li):
+    if case.oracle != "c03-3d":
+        return None
+    if any(x.startswith("<missing") for x in li):
+        return "driver died"
+    if len(li) != len(case.lines):
+        return f"expected {len(case.lines)} output lines, got {len(li)}"
+    k = max(i for i, inp in enumerate(case.lines) if inp == "snap")
+    if not li[k].startswith("snap "):
+        return f"snapshot failed: {li[k]!r}"
+    s = gens.parse_snap(li[k])
+    n, b, u = s["n"], [s["b0"], s["b1"], s["b2"], s["b3"]], s["u"]
+    COUNT3["maps"] += 1
+    if not wf3(b, u, n):
+        COUNT3["maps_not_wf_skipped"] += 1
+        return None
+    cells = {p: components3(GEN3[p], b, n) for p in SYM3}
+    glued = glued_ok3(b, n, cells["f"])
+    if not glued:
+        COUNT3["maps_glued_faces_open_or_unmirrored"] += 1
+    if any(u[1:]):
+        COUNT3["maps_with_removed_darts"] += 1
+    COUNT3["volumes_with_open_face"] += len({min(c) for c in cells["vol"].values() if len(c) > 1 and any(b[1][x] == 0 for x in c)})
+    COUNT3["boundary_vertices"] += len({min(c) for c in cells["v"].values() if len(c) > 1 and any(b[2][x] == 0 for x in c)})
+    obs = list(zip(case.lines, li))[k + 1:]
+    ans = dict(obs)
+    ids = {kind: {} for kind in SYM3.values()}        # the implementation's own answers, every dart
+    claimed = {kind: set() for kind in SYM3.values()}  # darts on which the id clause is claimed
+    for inp, out in obs:
+        t = inp.split()
+        if t[0] in ("orbit", "orbitnt"):
+            pol, d = t[1], int(t[2])
+            paths = gens3(pol)
+            if not (1 <= d < n) or paths is None:
+                continue      # null / out-of-range dart, refused policy: correspondence only
+            got = parse_list(out)
+            if got is None:
+                return f"{inp}: expected a dart list on a valid dart, got {out!r}"
+            COUNT3["orbit_checked"] += 1
+            if not got or got[0] != d:
+                return f"{inp}: the orbit does not start with the dart: {out!r}"
+            if len(set(got)) != len(got):
+                return f"{inp}: a dart is yielded twice: {out!r}"
+            if 0 in got:
+                return f"{inp}: the null dart is yielded: {out!r}"
+            fw = forward3(paths, b, n, d)
+            if set(got) != fw:
+                return f"{inp}: yielded {sorted(got)} but the darts reachable through the images are {sorted(fw)}"
+            if pol in SYM3:
+                if pol == "v" and not glued:
+                    COUNT3["vertex_orbit_skipped"] += 1
+                else:
+                    COUNT3["orbit_cell_checked"] += 1
+                    if set(got) != cells[pol][d]:
+                        return f"{inp}: yielded {sorted(got)} but the cell (images and inverses) is {sorted(cells[pol][d])}"
+            if pol in LIN3:
+                cell = cells[LIN3[pol]][d]
+                if linear_closed3(pol, cell, b, n) and (pol != "vl" or glued):
+                    COUNT3["linear_closed"] += 1
+                    if set(got) != cell:
+                        return f"{inp}: closed cell {sorted(cell)} but the linear orbit yields {sorted(got)}"
+                else:
+                    COUNT3["linear_open_skipped"] += 1
+            if t[0] == "orbit":
+                other = ans.get(f"orbitnt {pol} {d}")
+                if other is not None:
+                    COUNT3["tx_vs_plain"] += 1
+                    if other != out:
+                        return f"{inp}: orbit_transac gives {out!r} but orbit gives {other!r}"
+        elif t[0] in ("vid", "eid", "fid", "volid", "vidnt", "eidnt", "fidnt", "volidnt"):
+            d = int(t[1])
+            if not (1 <= d < n):
+                continue
+            kind = t[0][:-2] if t[0].endswith("nt") else t[0]
+            pol = {v: k2 for k2, v in SYM3.items()}[kind]
+            got = parse_list(out)
+            if got is None or len(got) != 1:
+                return f"{inp}: expected an identifier, got {out!r}"
+            if t[0] == kind:
+                ids[kind][d] = got[0]
+                other = ans.get(f"{kind}nt {d}")
+                if other is not None:
+                    COUNT3["tx_vs_plain"] += 1
+                    if other != out:
+                        return f"{inp}: transactional id {out!r} but plain id {other!r}"
+            if kind == "vid" and not glued:
+                COUNT3["vid_skipped"] += 1
+                continue
+            if kind == "fid" and not face_ok3(cells["f"][d], b):
+                COUNT3["fid_open_or_unmirrored_skipped"] += 1
+                continue
+            COUNT3["ids_checked"] += 1
+            claimed[kind].add(d)
+            want = min(cells[pol][d])
+            if got[0] != want:
+                return f"{inp}: identifier {got[0]} but the smallest dart of the cell {sorted(cells[pol][d])} is {want}"
+        elif t[0] in ITER3:
+            pol = ITER3[t[0]]
+            kind = SYM3[pol]
+            got = parse_list(out)
+            if got is None:
+                return f"{inp}: expected a list, got {out!r}"
+            in_use = [d for d in range(1, n) if not u[d]]
+            # the mechanism, on every map: keep dart d iff d is in use and d is its own identifier
+            if all(d in ids[kind] for d in in_use):
+                COUNT3["iter_mechanism_checked"] += 1
+                want2 = [d for d in in_use if ids[kind][d] == d]
+                if got != want2:
+                    return f"{inp}: yields {got} but the in-use darts that are their own {kind} are {want2}"
+            ok = glued if pol == "v" else all(face_ok3(cells["f"][d], b) for d in in_use) if pol == "f" else True
+            if not ok:
+                COUNT3["iter_skipped"] += 1
+                continue
+            COUNT3["iter_checked"] += 1
+            want = sorted(set(min(cells[pol][d]) for d in in_use))
+            if got != want:
+                return f"{inp}: yields {got} but the identifiers of the in-use darts are {want}"
+    # equal ids <=> same cell, on the implementation's answers (where the id clause is claimed)
+    for pol, kind in SYM3.items():
+        ds = sorted(d for d in claimed[kind] if d in ids[kind])
+        for i, d in enumerate(ds):
+            for e in ds[i:]:
+                COUNT3["id_pairs"] += 1
+                same_id = ids[kind][d] == ids[kind][e]
+                same_cell = e in cells[pol][d]
+                if same_id != same_cell:
+                    return f"{kind}: darts {d} and {e} have ids {ids[kind][d]}, {ids[kind][e]} but same-cell is {same_cell}"
+    return None
+
+
+def observe3(darts, pols=POLS3, iters=True):
+    out = []
+    for d in darts:
+        for p in pols:
+            out.append(f"orbit {p} {d}")
+            out.append(f"orbitnt {p} {d}")
+        for k in ("vid", "eid", "fid", "volid"):
+            out += [f"{k} {d}", f"{k}nt {d}"]
+    if iters:
+        out += ["iterv", "itere", "iterf", "itervol"]
+    return out
+
+
+def exhaustive3(ns, rng, frac=1.0):
+    """every WF 3-map (removed darts included) x every dart 0..n+1 x every policy, ids, iterators"""
+    cases = []
+    for n in ns:
+        k = 0
+        for (b0, b1, b2, b3, u) in gens.wf_maps3(n, with_unused=True):
+            if frac < 1.0 and rng.random() > frac:
+                continue
+            k += 1
+            load = gens.load_line(3, n, 0, [b0, b1, b2, b3], u)
+            cases.append(Case(f"e3x{n}-{k}", [load, "snap"] + observe3(range(0, n + 2), POLS3 + ["c4"]), oracle="c03-3d",
+                              meta={"sig": f"3d-exhaustive-n{n}"}))
+    return cases
+
+
+def edit_history3(rng, in_use, cur, length, alloc):
+    """random valid-argument editing calls (as tools/props/c02.py: a removed dart is never named again)"""
+    lines, in_use = [], list(in_use)
+    for _ in range(length):
+        op = gens.random_op3(rng, in_use, alloc=alloc, weights=[5, 4, 1, 1])
+        t = op.split()
+        lines.append(op)
+        if t[0] == "rm":
+            in_use = [d for d in in_use if d != int(t[1])]
+        elif t[0] == "add":
+            in_use += list(range(cur, cur + int(t[1])))
+            cur += int(t[1])
+        # (`ins`: the reused / new dart is only observed, never named)
+    return lines
+
+
+def glued_faces3(rng, max_faces, variants, frac=1.0, maxops=7):
+    """the glued-faces family (closed and open faces of <= 4 sides), fresh and after random link/sew/unlink/unsew/
+    remove/insert calls of every dimension, observed on every dart"""
+    cases, k = [], 0
+    for n, rows, faces in gens.faces3_maps(max_faces, 4):
+        if frac < 1.0 and rng.random() > frac:
+            continue
+        load = gens.load_line(3, n, 0, rows, [0] * (n + 1))
+        for v in range(variants):
+            k += 1
+            pre = edit_history3(rng, range(1, n + 1), n + 1, 0 if v == 0 else rng.randint(1, maxops), alloc=(v % 2 == 0))
+            cases.append(Case(f"g3f{k}", [load] + pre + ["snap"] + observe3(range(0, n + 3)), oracle="c03-3d",
+                              meta={"sig": "3d-glued-faces"}))
+    return cases
+
+
+def polyhedra3(count, rng):
+    """pairs of polyhedra (glued by a 3-link/3-sew or not), some faces opened by 1-unlinks (a volume with open
+    faces, darts only reachable through β0), some edges opened by 2-unlinks (boundary vertices)"""
+    cases = []
+    pairs = gens.cell_pairs()
+    for k in range(count):
+        name, pa, pb = pairs[k % len(pairs)]
+        if rng.random() < 0.5:
+            pa, pb = pb, pa
+        lines, a, b, pair = gens.two_cells_lines(rng, pa, pb, 0, values=False, sew=rng.random() < 0.3, force=rng.random() < 0.7,
+                                                 glue=rng.choice(["sew", "link"]))
+        if pair and rng.random() < 0.25:
+            lines = lines[:-1]      # not glued
+        n = a.ndarts + b.ndarts
+        darts = list(range(1, n + 1))
+        for _ in range(rng.choice([0, 1, 1, 2, 3, 5])):
+            lines.append(f"{rng.choice(['', 'f'])}unlink 1 {rng.choice(darts)}")
+        for _ in range(rng.choice([0, 0, 1, 2, 4])):
+            lines.append(f"{rng.choice(['', 'f'])}unlink 2 {rng.choice(darts)}")
+        if rng.random() < 0.2:
+            lines.append(f"{rng.choice(['', 'f'])}unlink 3 {rng.choice(darts)}")
+        sample = sorted(rng.sample(darts, min(len(darts), 14)))
+        pols = ["v", "vl", "e", "f", "fl", "vol", "voll", rng.choice(["c10", "c01", "c23", "c3", "c0123"])]
+        obs = observe3(sample, pols, iters=False)
+        # ids of every dart (iterators are checked against them) + the iterators
+        for d in darts:
+            if d not in sample:
+                obs += [f"vid {d}", f"eid {d}", f"fid {d}", f"volid {d}"]
+        obs += ["iterv", "itere", "iterf", "itervol"]
+        cases.append(Case(f"p3h{k}-{name}", lines + ["snap"] + obs, oracle="c03-3d", meta={"sig": "3d-polyhedra"}))
+    return cases
+
+
 def streams3d(tier, rng):
-    """TODO(3-D): CMap3 observation streams (gens.wf_maps3 / gens.faces3_maps / polyhedra x gens.observe3) with a
-    3-D oracle.  Until the 3-D model (Ops3) covers orbit3 / ids / iterators this returns no case: the 3-D clauses
-    of C03 are then not checked at all (see SPEC['not_proved'])."""
-    return []
+    """CMap3 observation streams: list of (name, cases, exhaustive?)"""
+    if tier == "quick":
+        return [
+            ("3-D exhaustive WF 3-maps n<=3 (removed darts included)", exhaustive3([1, 2, 3], rng), True),
+            ("3-D WF 3-maps n=4 (4% sample)", exhaustive3([4], rng, 0.04), False),
+            ("3-D glued faces <=2 faces, fresh + random edits", glued_faces3(rng, 2, 8), False),
+            ("3-D glued faces 3 faces (sample)", glued_faces3(rng, 3, 2, frac=0.25), False),
+            ("3-D pairs of polyhedra, opened faces/edges", polyhedra3(250, rng), False),
+        ]
+    return [
+        ("3-D exhaustive WF 3-maps n<=4 (removed darts included)", exhaustive3([1, 2, 3, 4], rng), True),
+        ("3-D glued faces <=2 faces, fresh + random edits", glued_faces3(rng, 2, 60, maxops=10), False),
+        ("3-D glued faces 3 faces", glued_faces3(rng, 3, 6, maxops=10), False),
+        ("3-D pairs of polyhedra, opened faces/edges", polyhedra3(3000, rng), False),
+    ]
 
 
 def run(tier, seed):
@@ -382,11 +740,16 @@ def run(tier, seed):
         parts.append(("exhaustive n<=4", r1))
         parts.append(("exhaustive n=5 (20% sample)", hv.campaign(exhaustive([5], rng, 0.20), oracle_c03)))
         parts.append(("random maps <=40 darts, grids", hv.campaign(random_maps(20000, rng), oracle_c03)))
-    s3 = streams3d(tier, rng)
-    if s3:
-        parts.append(("3-D observations (correspondence only)", hv.campaign(s3, None)))
+    for k in COUNT3:
+        COUNT3[k] = 0
+    for name, cases, exh in streams3d(tier, rng):
+        r3 = hv.campaign(cases, oracle_c03_3d)
+        if exh:
+            r3["stats"]["exhaustive"] = True
+        parts.append((name, r3))
     res = hv.merge_results(parts)
     res["stats"]["oracle_counts"] = dict(COUNT)
+    res["stats"]["oracle_counts_3d"] = dict(COUNT3)
     res["stats"]["exhaustive"] = True
     return res
 
